@@ -45,7 +45,7 @@ def tstates_rule(ctx, repo, mod=None, sf=None):
             ts = set(range(0, 12)) | set(range(frame - 12, frame)) | {frame, frame + 1, 2 * frame - 1, 300 * frame + 777, 2 ** 24 + 5096, 2 ** 24 * 3 + 70000, 10 ** 9 + 7, 2 ** 32 + 12345}
             for k in range(1, 4):
                 ts |= set(range(k * q - 2, k * q + 3))
-            ts |= set(range(0, frame, 1 if ctx.tier == 'thorough' else 4099))
+            ts |= set(range(0, frame, (1 if (ext, machine) == ('z80', '48K') else 17) if ctx.tier == 'thorough' else 4099))
             ts |= {255, 256, 257, 65535, 65536, 65537}
             C09round.domain_check(ctx, sf, ext, machine, 'tstates', sorted(ts))
     return sf
